@@ -274,7 +274,9 @@ func idleCase(rng *rand.Rand, kind string) Case {
 		unit := int64(1_000_000_000)
 		oooU := []int64{3600, 7200}[rng.Intn(2)]
 		late = []int64{0, 0, unit, 3 * unit}[rng.Intn(4)]
-		if kind == "sliding" {
+		if kind == "session" {
+			c.Cfg = [][]string{{"kind", "session"}, {"mode", "et"}, {"timeout", itoa(unit)}, {"ooo", itoa(oooU * unit)}, {"late", itoa(late)}, {"groupby", "k"}, {"now", "0"}, {"idle", itoa(size)}, {"live", "1"}, {"tsadd", "0"}}
+		} else if kind == "sliding" {
 			c.Cfg = [][]string{{"kind", "sliding"}, {"mode", "et"}, {"size", itoa(2 * unit)}, {"slide", itoa(unit)}, {"ooo", itoa(oooU * unit)}, {"late", itoa(late)}, {"now", "0"}, {"idle", itoa(size)}, {"live", "1"}, {"tsadd", "0"}}
 		} else {
 			c.Cfg = [][]string{{"kind", "tumbling"}, {"mode", "et"}, {"size", itoa(unit)}, {"ooo", itoa(oooU * unit)}, {"late", itoa(late)}, {"now", "0"}, {"idle", itoa(size)}, {"live", "1"}, {"tsadd", "0"}}
@@ -283,7 +285,9 @@ func idleCase(rng *rand.Rand, kind string) Case {
 		genLiveIdleOps(rng, &c, unit, oooU)
 		return c
 	}
-	if kind == "sliding" {
+	if kind == "session" {
+		c.Cfg = [][]string{{"kind", "session"}, {"mode", "et"}, {"timeout", itoa(size)}, {"ooo", itoa(ooo)}, {"late", itoa(late)}, {"groupby", "k"}, {"now", "0"}, {"idle", itoa(size)}}
+	} else if kind == "sliding" {
 		c.Cfg = [][]string{{"kind", "sliding"}, {"mode", "et"}, {"size", itoa(2 * size)}, {"slide", itoa(size)}, {"ooo", itoa(ooo)}, {"late", itoa(late)}, {"now", "0"}, {"idle", itoa(size)}}
 	} else {
 		c.Cfg = [][]string{{"kind", "tumbling"}, {"mode", "et"}, {"size", itoa(size)}, {"ooo", itoa(ooo)}, {"late", itoa(late)}, {"now", "0"}, {"idle", itoa(size)}}
@@ -364,10 +368,7 @@ func (c02) Gen(rng *rand.Rand, tier string, idx int) Case {
 	if idx%15 == 13 {
 		// IDLETIMEOUT of one hour with idle AND busy ticker updates placed by the harness (hook
 		// VerifWatermarkTickIdle): after an idle advance the watermark must stay where it is
-		if rng.Intn(3) == 0 {
-			return idleCase(rng, "sliding")
-		}
-		return idleCase(rng, "tumbling")
+		return idleCase(rng, []string{"sliding", "tumbling", "tumbling", "session"}[rng.Intn(4)])
 	}
 	switch k := rng.Intn(10); {
 	case k < 5: // tumbling with lateness
